@@ -2,10 +2,11 @@
    extracted datatypes, no Extract Constant. *)
 From Coq Require Import ZArith List.
 From Coq Require Import ExtrOcamlBasic.
-From VV Require Import Base.F64 Lambda.LambdaDefs.
+From VV Require Import Base.F64 Lambda.LambdaDefs Lambda.LambdaSerialDefs.
 Extraction "lambda_model.ml"
   F64.of_bits F64.to_bits
   init step run_ops model_program vinit vstep
   team_eval running_mean defined slot discretization sigmoid_01
   dyn_build dyn_tag gauss_build gauss_tag gauss_stats binary_tag wta mv
-  accuracy_class accuracy_reg count_eval gauss_eval L.count_up.
+  accuracy_class accuracy_reg count_eval gauss_eval L.count_up
+  load_model save_model spredict.
